@@ -17,15 +17,19 @@ Inductive su_effect (c : config) (s s' : state) : Prop :=
     sd s' = sd s -> su_effect c s s'
 | su_poll i :
     main s = MGate i -> main s' = MGateCheck i -> rn s' = rn s -> sd s' = sd s -> su_effect c s s'
+| su_enter :
+    ((main s = MNew /\ main s' = MEntering) \/ (main s = MEntering /\ main s' = MLaunch 0)) ->
+    rn s' = rn s -> su_effect c s s'
 | su_leave :
     (forall i, main s' <> MLaunch i /\ main s' <> MGate i /\ main s' <> MGateCheck i) ->
+    main s' <> MNew -> main s' <> MEntering ->
     rn s' = rn s -> su_effect c s s'
 | su_same :
     main s' = main s ->
     (rn s' = rn s \/ exists i p, rn s' = upd (rn s) i p /\ get RnDone (rn s) i <> RnNot /\ p <> RnNot) ->
     su_effect c s s'.
 
-Ltac leave_tac := apply su_leave; [intros ?; repeat split; discriminate|reflexivity].
+Ltac leave_tac := apply su_leave; [intros ?; repeat split; discriminate|discriminate|discriminate|reflexivity].
 
 Lemma step_su_effect c s l s' : step c s l = Some s' -> su_effect c s s'.
 Proof.
@@ -37,6 +41,7 @@ Proof.
   all: repeat match goal with E : (_ =? _) = true |- _ => apply Nat.eqb_eq in E; subst end.
   all: repeat match goal with E : (_ <? _) = true |- _ => apply Nat.ltb_lt in E end.
   all: try (leave_tac; fail).
+  all: try (apply su_enter; [first [left; split; [assumption|reflexivity]|right; split; [assumption|reflexivity]]|reflexivity]; fail).
   all: try (eapply su_launch; [eassumption|eassumption|eassumption|reflexivity|first [left; reflexivity|right; reflexivity]|reflexivity]; fail).
   all: try (eapply su_open; [first [left; eassumption|right; eassumption]|reflexivity|reflexivity|reflexivity]; fail).
   all: try (eapply su_poll; [eassumption|reflexivity|reflexivity|reflexivity]; fail).
@@ -98,6 +103,7 @@ Record InvPre (c : config) (s : state) : Prop := {
   ip_prefix : is_prefix_k (rn s) (launched s);
   ip_launch : forall i, main s = MLaunch i -> launched s = i;
   ip_gate : forall i, main s = MGate i \/ main s = MGateCheck i -> launched s = S i;
+  ip_new : pre_run s -> launched s = 0;
 }.
 
 Lemma InvPre_init c : InvPre c (init c).
@@ -110,8 +116,9 @@ Proof.
   constructor.
   - cbn. apply repeat_length.
   - rewrite Z. cbn. repeat split; [lia|intros; lia|]. intros j _ L. rewrite repeat_length in L. now apply R.
-  - cbn. intros i H. injection H as <-. exact Z.
+  - cbn. intros i H. discriminate H.
   - cbn. intros i [H|H]; discriminate H.
+  - intros _. exact Z.
 Qed.
 
 Lemma after_launch_idx c i m :
@@ -124,13 +131,15 @@ Qed.
 
 Lemma InvPre_step c s l s' : InvPre c s -> step c s l = Some s' -> InvPre c s'.
 Proof.
-  intros [Hlen Hpre HL HG] H. pose proof (step_su_effect _ _ _ _ H) as E.
+  intros [Hlen Hpre HL HG HN] H. pose proof (step_su_effect _ _ _ _ H) as E.
   rewrite launched_cnt in Hpre.
+  assert (HN' : pre_run s -> cnt (rn s) = 0) by (intros X; rewrite <- launched_cnt; auto).
+  clear HN. unfold pre_run in *.
   assert (HL' : forall i, main s = MLaunch i -> cnt (rn s) = i) by (intros i Hi; rewrite <- launched_cnt; auto).
   assert (HG' : forall i, main s = MGate i \/ main s = MGateCheck i -> cnt (rn s) = S i)
     by (intros i Hi; rewrite <- launched_cnt; auto).
   clear HL HG.
-  destruct E as [i Em Es Li Er Em' _ | i Em Em' Er _ | i Em Em' Er _ | Hm Er | Em Er].
+  destruct E as [i Em Es Li Er Em' _ | i Em Em' Er _ | i Em Em' Er _ | Em Er | Hm Hm1 Hm2 Er | Em Er].
   - (* launch *)
     pose proof (HL' i Em) as Hk.
     assert (Hp' : is_prefix_k (rn s') (S i)).
@@ -145,27 +154,37 @@ Proof.
       * destruct Hj as [Hj|Hj]; [now injection Hj as <-|discriminate Hj].
       * exfalso. destruct (after_launch_idx c i _ eq_refl) as [_ X]. destruct (X j) as [X1 X2].
         destruct Hj; contradiction.
+    + intros [X|X]; destruct Em' as [E|E]; rewrite E in X; try discriminate X;
+        apply after_launch_cases in X as [[X _]|X]; discriminate X.
   - (* gate opens *)
     constructor; rewrite ?launched_cnt, ?Er; auto.
     + intros j Hj. rewrite Em' in Hj. rewrite (HG' i Em). symmetry.
       eapply after_launch_idx; [reflexivity|exact Hj].
     + intros j Hj. rewrite Em' in Hj. exfalso.
       destruct (after_launch_idx c i _ eq_refl) as [_ X]. destruct (X j) as [X1 X2]. destruct Hj; contradiction.
+    + intros [X|X]; rewrite Em' in X; apply after_launch_cases in X as [[X _]|X]; discriminate X.
   - (* poll true *)
     constructor; rewrite ?launched_cnt, ?Er; auto.
     + intros j Hj. rewrite Em' in Hj. discriminate Hj.
     + intros j Hj. rewrite Em' in Hj. rewrite (HG' i (or_introl Em)).
       destruct Hj as [Hj|Hj]; [discriminate Hj|now injection Hj as <-].
+    + intros [X|X]; rewrite Em' in X; discriminate X.
+  - (* Run() called / entered *)
+    assert (Z : cnt (rn s) = 0) by (apply HN'; destruct Em as [[E _]|[E _]]; auto).
+    constructor; rewrite ?launched_cnt, ?Er; auto.
+    + intros j Hj. destruct Em as [[_ E]|[_ E]]; rewrite E in Hj; [discriminate Hj|]. injection Hj as <-. exact Z.
+    + intros j Hj. destruct Em as [[_ E]|[_ E]]; rewrite E in Hj; destruct Hj as [Hj|Hj]; discriminate Hj.
   - (* left the start-up loop *)
     constructor; rewrite ?launched_cnt, ?Er; auto.
     + intros j Hj. exfalso. destruct (Hm j) as (X0 & _). contradiction.
     + intros j Hj. exfalso. destruct (Hm j) as (_ & X1 & X2). destruct Hj; contradiction.
+    + intros [X|X]; contradiction.
   - (* main unchanged *)
     destruct Er as [Er|(i & p & Er & Hi & Hp)].
-    + constructor; rewrite ?launched_cnt, ?Er, ?Em; auto.
+    + constructor; unfold pre_run; rewrite ?launched_cnt, ?Er, ?Em; auto.
     + assert (Hc : cnt (rn s') = cnt (rn s)).
       { rewrite Er. unfold cnt. apply (launched_upd_started (rn s) i p Hi Hp). }
-      constructor; rewrite ?launched_cnt, ?Em, ?Hc; auto.
+      constructor; unfold pre_run; rewrite ?launched_cnt, ?Em, ?Hc; auto.
       * rewrite Er, upd_length. exact Hlen.
       * rewrite Er. now apply prefix_upd_started.
 Qed.
@@ -179,8 +198,9 @@ Lemma launched_step c s l s' :
   InvPre c s -> step c s l = Some s' ->
   launched s' = launched s \/ (sd s = SdNot /\ sd s' = SdNot).
 Proof.
-  intros I H. destruct (step_su_effect _ _ _ _ H) as [i Em Es Li Er Em' Es' | i Em Em' Er _ | i Em Em' Er _ | Hm Er | Em Er].
+  intros I H. destruct (step_su_effect _ _ _ _ H) as [i Em Es Li Er Em' Es' | i Em Em' Er _ | i Em Em' Er _ | Em Er | Hm _ _ Er | Em Er].
   - right. split; [exact Es|congruence].
+  - left. unfold launched. now rewrite Er.
   - left. unfold launched. now rewrite Er.
   - left. unfold launched. now rewrite Er.
   - left. unfold launched. now rewrite Er.
@@ -188,12 +208,32 @@ Proof.
     now apply launched_upd_started.
 Qed.
 
-Definition InvK (s : state) : Prop :=
+(* the range Shutdown stops: every registered runnable when it closed the launch gate before Run() was
+   entered (ghost flag sd_all), otherwise what Run() had started *)
+Definition stop_k (c : config) (s : state) : nat := if sd_all (aux s) then nrun c else launched s.
+
+(* how one step treats the flag sd_all: it is set exactly when shutdown starts before Run() was entered *)
+Lemma step_sd_all c s l s' :
+  step c s l = Some s' ->
+  (sd_all (aux s') = sd_all (aux s) /\ (sd s = SdNot -> sd s' = SdNot)) \/
+  (sd s = SdNot /\ sd s' = sd_next (stop_count c s) /\ rn s' = rn s /\
+   sd_all (aux s') = negb (run_entered (aux s)) || sd_all (aux s)).
+Proof.
+  intros H. unfold step in H.
+  destruct l; cbn [step0] in H; unfold start_shutdown, store_state in H;
+    step_cases H; inversion H; subst; clear H; simp_st.
+  all: try (left; split; [reflexivity|intros X; first [exact X|congruence]]; fail).
+  all: try (right; split; [assumption|]; split; [reflexivity|]; split; [reflexivity|];
+            match goal with E : run_entered _ = _ |- _ => rewrite E end; reflexivity).
+  all: try (right; repeat split; reflexivity).
+Qed.
+
+Definition InvK (c : config) (s : state) : Prop :=
   match sd s with
-  | SdNot => stops s = []
-  | SdNext k => 0 < k /\ stops_fr (launched s) k (stops s)
-  | SdIn i => exists l, stops_fr (launched s) (S i) l /\ stops s = l ++ [EStopCall i]
-  | SdCancel | SdWait | SdDone => stops_fr (launched s) 0 (stops s)
+  | SdNot => stops s = [] /\ sd_all (aux s) = false
+  | SdNext k => 0 < k /\ stops_fr (stop_k c s) k (stops s)
+  | SdIn i => exists l, stops_fr (stop_k c s) (S i) l /\ stops s = l ++ [EStopCall i]
+  | SdCancel | SdWait | SdDone => stops_fr (stop_k c s) 0 (stops s)
   end.
 
 Lemma sd_next_K K k l :
@@ -205,41 +245,76 @@ Lemma sd_next_K K k l :
   end.
 Proof. destruct k; cbn [sd_next]; auto. intros; split; [lia|assumption]. Qed.
 
-Lemma InvK_step c s l s' : InvPre c s -> InvK s -> step c s l = Some s' -> InvK s'.
+Lemma InvK_step c s l s' : InvPre c s -> InvK c s -> step c s l = Some s' -> InvK c s'.
 Proof.
   intros IP IK H. unfold InvK in *.
   destruct (step_sd_effect _ _ _ _ H) as [_ Heff].
   pose proof (launched_step _ _ _ _ IP H) as HL.
+  pose proof (step_sd_all _ _ _ _ H) as HA.
+  (* once the shutdown body has started the stop range is fixed *)
+  assert (HK : sd s <> SdNot -> stop_k c s' = stop_k c s).
+  { intros N. unfold stop_k. destruct HA as [[A _]|[X _]]; [|contradiction]. rewrite A.
+    destruct HL as [HL|[X _]]; [now rewrite HL|contradiction]. }
   destruct Heff as [i Es Es' Eh | i Es Es' Eh | Est Esd].
   - rewrite Es in IK. destruct IK as [_ Hfr]. rewrite Es'.
-    destruct HL as [HL|[X _]]; [|congruence]. rewrite HL.
+    rewrite HK by (rewrite Es; discriminate).
     exists (stops s). split; [exact Hfr|].
     eapply eq_trans; [eapply stops_cons_stop; [exact Eh|reflexivity]|reflexivity].
   - rewrite Es in IK. destruct IK as (l0 & Hfr & Est).
-    destruct HL as [HL|[X _]]; [|congruence].
     assert (Est' : stops s' = l0 ++ [EStopCall i; EStopRet i]).
     { eapply eq_trans; [eapply stops_cons_stop; [exact Eh|reflexivity]|].
       fold (stops s). rewrite Est, <- app_assoc. reflexivity. }
     pose proof (sd_next_K _ _ _ (sf_snoc _ i l0 Hfr)) as Hn.
-    rewrite Es', HL, Est'. destruct (sd_next i); try contradiction; exact Hn.
+    rewrite Es', HK, Est' by (rewrite Es; discriminate). destruct (sd_next i); try contradiction; exact Hn.
   - rewrite Est. destruct Esd as [E | [[E E'] | [[E E'] | [E E']]]].
-    + rewrite E. destruct HL as [HL|[X X']]; [now rewrite HL|].
-      rewrite X in *. exact IK.
-    + rewrite E in IK. rewrite E', IK.
-      destruct HL as [HL|[_ X']]; [|rewrite E' in X'; destruct (launched s); discriminate X'].
-      rewrite HL. pose proof (sd_next_K (launched s) (launched s) [] (sf_nil _)) as Hn.
-      destruct (sd_next (launched s)); try contradiction; exact Hn.
-    + rewrite E in IK. rewrite E'. destruct HL as [HL|[X _]]; [now rewrite HL|congruence].
-    + rewrite E in IK. rewrite E'. destruct HL as [HL|[X _]]; [now rewrite HL|congruence].
+    + rewrite E. destruct (sd s) eqn:Es.
+      * destruct IK as [IK1 IK2]. split; [exact IK1|].
+        destruct HA as [[A _]|(_ & X & _)]; [now rewrite A|].
+        rewrite E in X. destruct (stop_count c s); discriminate X.
+      * rewrite HK by discriminate. exact IK.
+      * rewrite HK by discriminate. exact IK.
+      * rewrite HK by discriminate. exact IK.
+      * rewrite HK by discriminate. exact IK.
+      * rewrite HK by discriminate. exact IK.
+    + rewrite E in IK. destruct IK as [IK1 IK2]. rewrite E', IK1.
+      assert (HK' : stop_k c s' = stop_count c s).
+      { destruct HA as [[_ A]|(_ & _ & Er & A)].
+        - specialize (A E). rewrite E' in A. destruct (stop_count c s); discriminate A.
+        - unfold stop_k, stop_count. rewrite A, IK2, orb_false_r. unfold launched. rewrite Er.
+          destruct (run_entered (aux s)); reflexivity. }
+      rewrite HK'. pose proof (sd_next_K (stop_count c s) (stop_count c s) [] (sf_nil _)) as Hn.
+      destruct (sd_next (stop_count c s)); try contradiction; exact Hn.
+    + rewrite E in IK. rewrite E', HK by (rewrite E; discriminate). exact IK.
+    + rewrite E in IK. rewrite E', HK by (rewrite E; discriminate). exact IK.
 Qed.
 
-Lemma InvK_reachable c s : reachable_sup c s -> InvK s.
+Lemma InvK_reachable c s : reachable_sup c s -> InvK c s.
 Proof.
   intros Hr.
-  assert (G : InvPre c s /\ InvK s).
+  assert (G : InvPre c s /\ InvK c s).
   { revert s Hr. apply sup_inv.
-    - split; [apply InvPre_init|reflexivity].
+    - split; [apply InvPre_init|split; reflexivity].
     - intros s0 l s1 [IP IK] Hs. split; [eapply InvPre_step; eassumption|eapply InvK_step; eassumption]. }
+  apply G.
+Qed.
+
+(* Shutdown before Run(): nothing is ever started *)
+Lemma sd_all_launched c s : reachable_sup c s -> sd_all (aux s) = true -> launched s = 0.
+Proof.
+  intros Hr.
+  assert (G : InvNew c s /\ InvPre c s /\ InvK c s /\ (sd_all (aux s) = true -> launched s = 0)).
+  { revert s Hr. apply sup_inv.
+    - split; [apply InvNew_init|]. split; [apply InvPre_init|]. split; [split; reflexivity|]. intros X; discriminate X.
+    - intros s0 l s1 (IN & IP & IK & IA) Hs.
+      split; [eapply InvNew_step; eassumption|].
+      split; [eapply InvPre_step; eassumption|]. split; [eapply InvK_step; eassumption|].
+      intros A. pose proof (launched_step _ _ _ _ IP Hs) as HL.
+      destruct (step_sd_all _ _ _ _ Hs) as [[E F]|(E0 & E1 & Er & E)].
+      + rewrite E in A. specialize (IA A). destruct HL as [HL|[X _]]; [congruence|].
+        unfold InvK in IK. rewrite X in IK. destruct IK as [_ IK]. congruence.
+      + unfold InvK in IK. rewrite E0 in IK. destruct IK as [_ IK]. rewrite E, IK, orb_false_r in A.
+        apply negb_true_iff in A. unfold launched. rewrite Er. apply (ip_new _ _ IP).
+        exact (proj2 (proj2 IN) A). }
   apply G.
 Qed.
 
@@ -323,9 +398,10 @@ Proof.
   apply forallb_forall. intros i Hi. apply in_seq in Hi.
   rewrite mem_ev_rev. destruct (mem_ev (ERunCall i) (hist s)) eqn:M; [|reflexivity]. cbn [negb orb].
   rewrite <- count_stop_filter. fold (stops s). rewrite <- Hc, count_canon.
-  replace (i <? launched s) with true; [reflexivity|]. symmetry. apply Nat.ltb_lt.
+  replace (i <? stop_k c s) with true; [reflexivity|]. symmetry. apply Nat.ltb_lt.
   pose proof (ig_called _ _ IG i M) as Hran. apply ran_not_started in Hran.
   destruct (ip_prefix _ _ IP) as (_ & _ & B).
+  unfold stop_k. destruct (sd_all (aux s)); [lia|].
   destruct (Nat.lt_ge_cases i (launched s)) as [L|L]; [exact L|].
   exfalso. apply Hran. unfold rn_at. apply B; [exact L|]. rewrite (ip_len _ _ IP). lia.
 Qed.
@@ -335,10 +411,23 @@ Qed.
    sequence over all started runnables is in the history *)
 Theorem sup_c01_cancel_after c s :
   reachable_sup c s -> own_cancel s = true ->
-  stop_evs (rev (hist s)) = canon_stops (launched s).
+  stop_evs (rev (hist s)) = canon_stops (stop_k c s).
 Proof.
   intros Hre Ho. pose proof (InvGate_reachable _ _ Hre) as IG. pose proof (ig_own _ _ IG Ho) as Hsd.
   pose proof (InvK_reachable _ _ Hre) as IK. unfold InvK in IK.
   destruct (sd s); try contradiction; (pose proof (stops_fr_canon _ _ _ IK) as Hc; cbn [canon_stops] in Hc;
     rewrite app_nil_r in Hc; symmetry; exact Hc).
+Qed.
+
+(* C01: the range of runnables Shutdown stops *)
+Theorem sup_c01_stop_range c s :
+  reachable_sup c s ->
+  (sd s <> SdNot -> run_entered (aux s) = false -> sd_all (aux s) = true) /\
+  (sd_all (aux s) = false -> stop_k c s = launched s) /\
+  (sd_all (aux s) = true -> stop_k c s = nrun c /\ launched s = 0) /\
+  (own_cancel s = true -> stop_evs (rev (hist s)) = canon_stops (stop_k c s)).
+Proof.
+  intros Hre. split; [exact (InvSdAll_reachable _ _ Hre)|]. unfold stop_k. split; [intros ->; reflexivity|].
+  split; [intros E; rewrite E; split; [reflexivity|exact (sd_all_launched _ _ Hre E)]|].
+  exact (sup_c01_cancel_after c s Hre).
 Qed.
